@@ -142,8 +142,14 @@ def check_dict_case(ctx, terms, exp):
     from distributed_shampoo.utils.shampoo_checkpoint_utils import flatten, unflatten
     leaves = {p: torch.tensor(float(i)) for i, (p, kind) in enumerate(terms) if kind == "leaf"}
     d = build_from_terminals(terms, leaves)
-    flat = flatten(d)
     probs = []
+    try:
+        flat = flatten(d)
+        got = unflatten(flat)
+    except Exception as ex:  # noqa
+        ctx.violation(f"flatten/unflatten raised {type(ex).__name__}: {str(ex)[:120]} on {terms}", {"kind": "statedict_oracle", "clause": "raised"},
+                      {"mode": "dict", "terms": [[list(p), k] for p, k in terms]})
+        return False
     if len(flat) != exp["nflat"]:
         probs.append(("flat_key_count(injectivity)", exp["nflat"], len(flat)))
     if {id(v) for v in flat.values()} != {id(v) for v in leaves.values()}:
@@ -156,7 +162,6 @@ def check_dict_case(ctx, terms, exp):
                 probs.append(("flat_key_collision_across_dicts", GLOBAL_KEYS[k], tp))
     exp_terms = [(tuple(dec_key(k) for k in t["path"]), "leaf") for t in (exp["leafful"] or [])]
     want = build_from_terminals(exp_terms, leaves)
-    got = unflatten(flat)
     if not same_tree(got, want) or not same_tree(want, got):
         probs.append(("unflatten(flatten(d))", repr(want)[:200], repr(got)[:200]))
     for clause, e, o in probs:
@@ -187,18 +192,23 @@ def build_obj(term, counter, tensors, scalars, path=()):
     if k == "tensor":
         counter[0] += 1
         t = torch.full((2,), float(counter[0]))
+        if counter[0] % 3 == 0:
+            t = torch.nn.Parameter(t, requires_grad=False)       # tensor subclass, as optimizers commonly hold
         tensors[path] = t
         return t
     if k == "scalar":
         scalars[path] = term[1]
         return term[1]
     if k == "mod":
-        m = OptimizerModule()
+        class SubModule(OptimizerModule):          # the repository's own modules are (dataclass) subclasses
+            pass
+        m = SubModule() if len(path) % 2 == 1 else OptimizerModule()
         for name, sub in term[1]:
             setattr(m, name, build_obj(sub, counter, tensors, scalars, path + (name,)))
         return m
     if k == "dict":
-        d = {}
+        import collections
+        d = collections.OrderedDict() if len(path) % 3 == 1 else {}
         for key, sub in term[1]:
             if key in d:
                 continue
@@ -258,7 +268,13 @@ def check_mod_case(ctx, term, store, exp):
     m1 = build_obj(term, c1, t1, s1)
     c2, t2, s2 = [1000], {}, {}
     m2 = build_obj(term, c2, t2, s2)
-    sd = m1.state_dict(store_non_tensors=store)
+    try:
+        sd = m1.state_dict(store_non_tensors=store)
+        m2_probe = None
+    except Exception as ex:  # noqa
+        ctx.violation(f"OptimizerModule.state_dict raised {type(ex).__name__} on {term}", {"kind": "module_oracle", "clause": "raised"},
+                      {"mode": "mod", "term": term, "store": store})
+        return False
     got = {(tuple((type(k).__name__, k) for k in p), kind) for p, kind in sd_terminals(sd)}
     want = {(tuple((type(dec_key(k)).__name__, dec_key(k)) for k in t["path"]), t["kind"]) for t in (exp["state"] or [])}
     # a dict with every scalar dropped shows up as an empty dict: the spec lists such containers as 'empty' only if
@@ -281,7 +297,12 @@ def check_mod_case(ctx, term, store, exp):
         except (KeyError, TypeError):
             probs.append(("state_dict_missing_tensor", p, "absent"))
     ids_before = {p: (id(t), t.data_ptr()) for p, t in t2.items()}
-    m2.load_state_dict(sd, store_non_tensors=store)
+    try:
+        m2.load_state_dict(sd, store_non_tensors=store)
+    except Exception as ex:  # noqa
+        ctx.violation(f"OptimizerModule.load_state_dict raised {type(ex).__name__}: {str(ex)[:100]} on {term}", {"kind": "module_oracle", "clause": "raised"},
+                      {"mode": "mod", "term": term, "store": store})
+        return False
     def walk(obj, p):
         if isinstance(obj, OptimizerModule):
             return walk(obj.__dict__, p)
